@@ -127,6 +127,12 @@ def same_type_sub(chk, rng, w, wid, plan=None):
     xa, xb, xc = (rand_fraction(rng, small=rng.random() < 0.7)
                   for _ in range(3))
     k = rand_fraction(rng, small=True, allow_zero=False)
+    ke = num(k)
+    if rng.random() < 0.25:
+        # a float factor counts with its exact binary value, also when the
+        # amounts are held as fractions
+        kf = rng.choice([0.3, 0.1, 2.5, 7.25, 1e-3, 1 / 3, 123.456])
+        k, ke = F(kf), ["fl", kf.hex()]
     kinds = ("D", "F", "int")
     mk = lambda x, s_: derived(                             # noqa: E731
         rng, Q(enc_amount(rng, x, kinds)[0], s_), s_)
@@ -143,9 +149,9 @@ def same_type_sub(chk, rng, w, wid, plan=None):
              {"k": "-a", "e": ["un", "neg", V("a")]},
              {"k": "abs", "e": ["un", "abs", V("a")]},
              {"k": "+a", "e": ["un", "pos", V("a")]},
-             {"k": "k(a+b)", "e": OP("*", num(k), OP("+", V("a"), V("b")))},
-             {"k": "ka+kb", "e": OP("+", OP("*", num(k), V("a")),
-                                    OP("*", num(k), V("b")))},
+             {"k": "k(a+b)", "e": OP("*", ke, OP("+", V("a"), V("b")))},
+             {"k": "ka+kb", "e": OP("+", OP("*", ke, V("a")),
+                                    OP("*", V("b"), ke))},
              {"k": "sum", "e": ["sum", ["l", [V("a"), V("b"), V("c")]]]},
              {"k": "sum0", "e": ["sum", ["l", []]]},
              {"k": "sum1", "e": ["sum", ["l", [V("b")]]]},
@@ -261,3 +267,79 @@ def run(chk, R, tier, seed):
                 for _ in range(15)]
         cases.append(world_program(chk, plan, subs, "world%d" % wi))
     run_cases(chk, R, cases, preload=("quantity",))
+    # money of two currencies inside an active converter: then EUR and USD
+    # are convertible units of one type, and the same rules apply (the rate
+    # is a short exact number both ways, so "reference value" is the amount
+    # in EUR; results are rounded once to the left operand's fraction)
+    from ..models import rounding as RM
+    MC = ["g", "quantity.money:MoneyConverter"]
+    cases = []
+    for i in range(12 if tier == "quick" else 150):
+        rate = rng.choice([F(5, 4), F(2), F(1, 2), F(4), F(8, 5), F(4, 5),
+                           F(5, 8), F(25, 2)])      # USD per EUR
+        per = {"EUR": F(1), "USD": 1 / rate}         # value in EUR
+        pre = [{"e": M(["g", "quantity.money:Money"], "register_currency",
+                       ["s", c])} for c in ("EUR", "USD")] + [
+            {"id": "mc", "e": ["c", MC, [U("EUR")]]},
+            {"e": M(V("mc"), "update", ["none"],
+                    ["l", [["t", [U("USD"), num(rate), ["i", 1]]]]])}]
+        body, subs = [], []
+        for j in range(12):
+            ca, cb = rng.choice([("EUR", "USD"), ("USD", "EUR")])
+            xa = F(rng.randint(-20000, 20000), 100)
+            xb = F(rng.randint(-20000, 20000), 100)
+            r = rng.random()
+            if r < 0.25:
+                xb = F(0)
+            elif r < 0.4:
+                xa = F(0)
+            elif r < 0.5:
+                xb = -xa * per[ca] / per[cb]        # the sum is zero
+            body += [{"k": "m%d.add" % j,
+                      "e": OP("+", Q(num(xa), ca), Q(num(xb), cb))},
+                     {"k": "m%d.sub" % j,
+                      "e": OP("-", Q(num(xa), ca), Q(num(xb), cb))},
+                     {"k": "m%d.lt" % j,
+                      "e": OP("<", Q(num(xa), ca), Q(num(xb), cb))}]
+            subs.append((j, ca, cb, xa, xb))
+        steps = pre + [{"with": V("mc"), "body": body, "k": "with"}]
+
+        def judge(obs, rec, case, subs=subs, per=per, rate=rate, steps=steps):
+            if obs is None:
+                chk.inconclusive_because("money converter case died")
+                return
+            for j, ca, cb, xa, xb in subs:
+                xb_r = RM.round_to(xb, F(1, 100), RM.DEFAULT_MODE)
+                xa_r = RM.round_to(xa, F(1, 100), RM.DEFAULT_MODE)
+                eq = xb_r * per[cb] / per[ca]       # xb in currency ca
+                chk.case(("money under converter", str(rate), ca, cb,
+                          str(xa), str(xb)))
+                chk.count("sums across currencies under a converter")
+                if eq == 0:
+                    chk.count("right operand converts to zero")
+                bad = []
+                for key, want in (("add", xa_r + eq), ("sub", xa_r - eq)):
+                    want = RM.round_to(want, F(1, 100), RM.DEFAULT_MODE)
+                    r = obs.get("m%d.%s" % (j, key), {})
+                    if r.get("k") != "Q" or r["u"] != ca or \
+                            val(r) != want:
+                        bad.append("%s %s %s %s %s gives %s, expected %s %s"
+                                   % (xa, ca, "+" if key == "add" else "-",
+                                      xb, cb, brief(r), want, ca))
+                lt = obs.get("m%d.lt" % j, {})
+                if lt.get("v") is not (xa_r < eq):
+                    bad.append("%s %s < %s %s is %s" % (xa, ca, xb, cb,
+                                                        brief(lt)))
+                if bad:
+                    chk.violation("under a converter with 1 EUR = %s USD: %s"
+                                  % (rate, "; ".join(bad[:3])),
+                                  dict(obs={k: v for k, v in obs.items()
+                                            if k.startswith("m%d." % j)},
+                                       steps=steps[:4] + [
+                                           {"with": V("mc"), "k": "with",
+                                            "body": steps[-1]["body"][
+                                                3 * j:3 * j + 3]}]),
+                                  "same-type-arith")
+        cases.append(Case(steps, judge, isolate=True))
+    chk.require("right operand converts to zero")
+    run_cases(chk, R, cases)
